@@ -425,6 +425,22 @@ impl<'a> Oracle<'a> {
                 format!("n={},marker={},groups={}", exp.len(), s.ext.is_some(), exp.iter().filter(|e| matches!(e, Exp::Group(_))).count()),
                 format!("{what}: fields {got:?}, components {want:?}"),
             );
+            // the extension marks of the members that can still be identified by name are judged all the same
+            for e in &exp {
+                if let Exp::Comp(c, is_ext) = e {
+                    if let Some(f) = fields.iter().find(|f| f.name == c.name) {
+                        self.bump("members_compared");
+                        if f.attrs.has("extension_addition") != *is_ext || f.attrs.has("extension_addition_group") {
+                            self.disc(
+                                "C05",
+                                if *is_ext { "addition-not-marked" } else { "root-marked-as-addition" },
+                                "kind=SEQUENCE/SET".into(),
+                                format!("{what}.{}: extension_addition={}, extension_addition_group={} (member list differs from the source: fields {got:?})", c.name, f.attrs.has("extension_addition"), f.attrs.has("extension_addition_group")),
+                            );
+                        }
+                    }
+                }
+            }
             return;
         }
         let pos = if top_level { Pos::Component } else { Pos::NestedComponent };
